@@ -133,6 +133,27 @@ func init() {
 		fr.m.unsupported("(time.Time).Year of a symbolic instant")
 		return nil
 	})
+	for _, cf := range []struct {
+		name string
+		get  func(t time.Time) int64
+	}{
+		{"Month", func(t time.Time) int64 { return int64(t.Month()) }},
+		{"Day", func(t time.Time) int64 { return int64(t.Day()) }},
+		{"Hour", func(t time.Time) int64 { return int64(t.Hour()) }},
+		{"Minute", func(t time.Time) int64 { return int64(t.Minute()) }},
+		{"Second", func(t time.Time) int64 { return int64(t.Second()) }},
+		{"YearDay", func(t time.Time) int64 { return int64(t.YearDay()) }},
+	} {
+		cf := cf
+		reg("(time.Time)."+cf.name, func(fr *frame, args []Value) Value {
+			ns := timeNS(fr, args[0])
+			if ns.IsConst() {
+				return tInt(cf.get(time.Unix(0, ns.Signed()).UTC()))
+			}
+			fr.m.unsupported("(time.Time)." + cf.name + " of a symbolic instant")
+			return nil
+		})
+	}
 	reg("(time.Time).AppendFormat", func(fr *frame, args []Value) Value {
 		ns := timeNS(fr, args[0])
 		layout := fr.concStr(args[2], "time layout")
